@@ -11,6 +11,8 @@ package consensus
 // MsgToProto -> Marshal -> Unmarshal -> MsgFromProto unchanged.
 
 import (
+	"runtime/debug"
+	"strings"
 	"bytes"
 	"encoding/binary"
 	"fmt"
@@ -327,14 +329,35 @@ func vf18NewEnv(o *vfOut, r *vfRand) (*vf18Env, error) {
 // guard runs f under recover and a watchdog.
 func (e *vf18Env) guard(what string, detail func() string, f func()) (ok bool) {
 	done := make(chan interface{}, 1)
+	var where string
 	go func() {
-		defer func() { done <- recover() }()
+		defer func() {
+			pv := recover()
+			if pv != nil {
+				// the repository frames of the panicking goroutine (file:line), innermost first
+				var fr []string
+				for _, ln := range strings.Split(string(debug.Stack()), "\n") {
+					ln = strings.TrimSpace(ln)
+					if i := strings.Index(ln, "go-kardia/"); i >= 0 && strings.Contains(ln, ".go:") && !strings.Contains(ln, "zz_verif") {
+						if j := strings.Index(ln, " +0x"); j > 0 {
+							ln = ln[:j]
+						}
+						fr = append(fr, ln[i+len("go-kardia/"):])
+					}
+				}
+				if len(fr) > 6 {
+					fr = fr[:6]
+				}
+				where = strings.Join(fr, " < ")
+			}
+			done <- pv
+		}()
 		f()
 	}()
 	select {
 	case pv := <-done:
 		if pv != nil {
-			e.o.Viol("panic-in-"+what, fmt.Sprintf("panic: %.300v; %s", pv, detail()))
+			e.o.Viol("panic-in-"+what, fmt.Sprintf("panic: %.300v; at %s; %s", pv, where, detail()))
 			return false
 		}
 		return true
